@@ -14,6 +14,7 @@ Decided:
  Z4 backing lifetime: (a) the DMA region whose address is sent in attach-backing is moved into the driver object on
     every Ok path of that operation; (b) every clearing (= None / take) of a stored backing region is preceded on all
     paths by the detach for that resource; (c) drop order is C09.R1; the page count derives from the attached length.
+ Z8 the blocking PCM transfer returns Ok only through the edge on which the period iterator is exhausted.
  Z7 in-flight PCM buffers are removed from the token maps only after pop_used succeeded (no removal before the fallible pop).
  Z5 PCM transfer shape: readable [stream id bytes, chunk] (non-blocking: one buffer), writable [status]; an add only
     when at least 3 descriptors are free; chunks of the configured period size.
@@ -31,7 +32,7 @@ EXPLANATION = ("Struct layouts/constants from rustc against the specification ta
                "command constant and of the response-check operand/result; command order and backing lifetime are dominance / "
                "must-precede queries on the inlined MIR of the GPU operations with the helpers as events.")
 CONFIGS = ['def', 'alloc', 'def-rel']    # these drivers need the `alloc` feature
-FLOORS = {'edid_parsers': 2, 'gpu_helpers': 9, 'gpu_commands': 13, 'sound_checks': 5, 'pcm_release_fns': {'*': 1, 'noalloc': 0}}
+FLOORS = {'edid_parsers': 2, 'gpu_helpers': 9, 'gpu_commands': 13, 'sound_checks': 5, 'pcm_release_fns': {'*': 1, 'noalloc': 0}, 'pcm_blocking_loops': {'*': 1, 'noalloc': 0}}
 GPU = 'device::gpu::VirtIOGpu'
 GPU_CMDS = {'GET_DISPLAY_INFO': 0x100, 'RESOURCE_CREATE_2D': 0x101, 'RESOURCE_UNREF': 0x102, 'SET_SCANOUT': 0x103, 'RESOURCE_FLUSH': 0x104,
             'TRANSFER_TO_HOST_2D': 0x105, 'RESOURCE_ATTACH_BACKING': 0x106, 'RESOURCE_DETACH_BACKING': 0x107, 'GET_CAPSET_INFO': 0x108,
@@ -59,6 +60,7 @@ def run(F, R):
     z2_misc(F, R, M, roles)
     z5_pcm(F, R, M, roles)
     z7_release_after_pop(F, R, M, roles)
+    z8_pcm_complete(F, R, M, roles)
     z6_edid(F, R)
 
 
@@ -503,6 +505,42 @@ def z7_release_after_pop(F, R, M, roles):
                 '%s: %s; when the pop fails (transfer not finished, or another token is next) the `?` return drops buffers the device still '
                 'reads / writes and the transfer can never be reaped' % (b['name'], bad))
     R.count('pcm_release_fns', n)
+
+
+def z8_pcm_complete(F, R, M, roles, rule='Z8'):
+    """The blocking PCM transfer returns success only after every period was submitted: its Ok result is reachable only
+    through the edge on which the chunk iterator is exhausted (a full queue alone is not a reason to stop)."""
+    snd = 'device::sound::VirtIOSound'
+    n = 0
+    for b in F.bodies.values():
+        if b.get('impl_adt') != snd or b['kind'] != 'AssocFn' or 'impl_trait' in b or not F.handwritten(b) or not has_loop(b):
+            continue
+        sg = supergraph(F, b['id'], tag='flat', max_depth=0)
+        S = sg.sym
+        if not any(True for _ in sg.calls(lambda d: roles.get(d.get('fn')) == 'add')) or not any(True for _ in sg.calls(lambda d: roles.get(d.get('fn')) == 'pop_used')):
+            continue
+        nexts = [c.id for c in sg.calls(lambda d: d.get('trait') == 'core::iter::Iterator' and d.get('method') == 'next' and 'Chunks' in (d.get('self_ty') or ''))]
+        if not nexts:
+            continue
+        n += 1
+        none_edges = set()
+        for m in sg.nodes:
+            if m.kind == 'switch':
+                d = S.operand(m.id, m.d['discr'])
+                if d[0] == 'discr' and d[1][0] == 'call' and d[1][1] in nexts:
+                    explicit = [v_ for v_, _ in m.switch_edges if v_ is not None]
+                    for val, sc in m.switch_edges:
+                        if val == 0 or (val is None and 0 not in explicit):
+                            none_edges.add((m.id, sc))
+        oks = [m.id for m in sg.nodes if m.kind == 'assign' and not m.d['place']['p'] and m.d['place']['l'] == 0 and m.d['rv']['rv'] == 'agg'
+               and m.d['rv'].get('variant') == 'Ok']
+        reach = sg.reach_fwd([sg.entry], avoid_edges=none_edges)
+        early = [m for m in oks if m in reach]
+        R.check(bool(none_edges) and bool(oks) and not early, rule, '%s:returns-after-last-period' % b['id'], fn_site(F, b['id']),
+                'Ok is reachable only after the chunk iterator is exhausted',
+                '%s can return Ok without having exhausted the frames (e.g. when the queue is momentarily full and the ring indices coincide): the remaining '
+                'periods are dropped and the requests still in flight are never popped - their buffers stay shared with the device' % b['name'])
+    R.count('pcm_blocking_loops', n)
 
 
 def z6_edid(F, R):
